@@ -44,6 +44,7 @@ VARIABLES
 
 vars == <<cfg, phase, wire, batches, cur, n, states, resps, disp, sentCount, srvClosed, cliClosed, hij, log>>
 
+NoHij == [on |-> FALSE, rest |-> <<>>, keep |-> FALSE]
 NoReq == [ver |-> "-", conn |-> "-", kind |-> "-", hclose |-> FALSE]
 
 ----------------------------------------------------------------------------
@@ -78,7 +79,7 @@ Init ==
   /\ cfg \in Cfgs
   /\ phase = "accepted" /\ wire = <<>> /\ batches = <<>> /\ cur = NoReq /\ n = 0
   /\ states = <<>> /\ resps = <<>> /\ disp = <<>> /\ sentCount = 0
-  /\ srvClosed = FALSE /\ cliClosed = FALSE /\ hij = "none" /\ log = <<>>
+  /\ srvClosed = FALSE /\ cliClosed = FALSE /\ hij = NoHij /\ log = <<>>
 
 \* Serve reports StateNew when it accepts; ServeConn is handed the connection by the caller
 Accept ==
@@ -154,8 +155,11 @@ Respond ==
          rc == RespConn(cfg, cur, n) IN
      /\ resps' = IF cur.kind = "hijacknr" THEN resps
                  ELSE Append(resps, [status |-> 200, conn |-> rc])
-     /\ IF mc /\ ~IsHijack(cur)
-        THEN \* Connection: close was sent: the connection is closed
+     /\ IF mc /\ cur.kind # "hijacknr"
+        THEN \* Connection: close was sent: the connection is closed.  As RequestCtx.Hijack
+             \* documents, the hijack handler is skipped when 'Connection: close' exists in
+             \* the request or the response (with HijackSetNoResponse there is no response
+             \* and the hand-over takes place)
              /\ phase' = "closed" /\ srvClosed' = TRUE
              /\ states' = Append(states, "closed")
              /\ log' = Append(log, <<"s", "closed", n>>)
@@ -164,7 +168,7 @@ Respond ==
         THEN \* hand the connection over: everything the client sent after this request
              \* belongs to the hijack handler, in order
              /\ phase' = "hijack"
-             /\ hij' = [rest |-> wire, keep |-> cfg.keepHij]
+             /\ hij' = [on |-> TRUE, rest |-> wire, keep |-> cfg.keepHij]
              /\ states' = Append(states, "hijacked")
              /\ log' = Append(log, <<"s", "hijacked", n>>)
              /\ UNCHANGED srvClosed
@@ -209,7 +213,7 @@ ActiveNeedsByte ==
 \* (closing without a response happens only on EOF / idle timeout, i.e. after the client left)
 CloseIffHeader ==
   \A i \in DOMAIN resps :
-     (resps[i].conn = "close") => (i = Len(resps) /\ (srvClosed \/ hij # "none"))
+     (resps[i].conn = "close") => (i = Len(resps) /\ (srvClosed \/ hij.on))
 ClosedOnlyAfterClose ==
   (srvClosed /\ ~cliClosed) => (resps # <<>> /\ resps[Len(resps)].conn = "close")
 
@@ -218,7 +222,7 @@ ClosedOnlyAfterClose ==
 DispatchInOrder == \A i \in DOMAIN disp : disp[i] >= i /\ (i > 1 => disp[i] > disp[i - 1])
 
 \* C17: a hijacked connection is not served again and receives exactly the pipelined rest
-HijackTerminal == (hij # "none") => (phase = "hijack" /\ ~srvClosed)
+HijackTerminal == hij.on => (phase = "hijack" /\ ~srvClosed)
 
 Inv == StateMachine /\ ActiveNeedsByte /\ CloseIffHeader /\ ClosedOnlyAfterClose /\ DispatchInOrder /\ HijackTerminal
 
